@@ -64,3 +64,10 @@ Fixpoint tagiter_find (fuel : nat) (p : profile) (h : hkind) (m : mem) (b blen n
    of the generic references (the cast is applied by the caller) *)
 Definition MODULE_TYP : N := 3.
 
+
+(* the provided Iterator methods are iterated next(): nth(k) = k+1 calls, stopping at the first None; a panic propagates *)
+Fixpoint tagiter_nth (p : profile) (h : hkind) (m : mem) (b blen nxt : N) (k : nat) : res (option dref * N) :=
+  match tagiter_next p h m b blen nxt with
+  | Val (Some r, nxt') => match k with O => Val (Some r, nxt') | S k' => tagiter_nth p h m b blen nxt' k' end
+  | x => x
+  end.
